@@ -12,6 +12,8 @@ from __future__ import annotations
 
 import pickle
 
+import math
+
 import numpy as np
 import pandas as pd
 from hypothesis import strategies as st
@@ -179,6 +181,69 @@ def check_threshold(case):
     if any(float(s) not in set(case["scores"]) for s, _ in case["query"]):
         tags.append("unseen_scores")
     return tags
+
+
+def _near_vertex_sizes(G, j, n0):
+    """Smallest n >= n0 (and P) with 0 < P/n - j/G < 0.9e-6: a curve vertex a hair above a grid value."""
+    for n in range(n0, n0 + 20000):
+        P = (n * j) // G + 1
+        r = G * P - n * j
+        if 0 < r < 0.9e-6 * G * n and 0 < P < n:
+            return n, P
+    return None
+
+
+def check_near_vertex(case):
+    """A large group whose trade-off curve has a vertex (selection rate P/n of the perfectly separating threshold) less
+    than 1e-6 above a grid value j/G, and which dominates the objective so that this grid value is the chosen one:
+    the interpolation between the curve points left and right of the grid value must still be a convex combination
+    (probabilities in [0,1], non-decreasing in the score without flip)."""
+    from fairlearn.postprocessing import ThresholdOptimizer
+
+    G, j = case["grid"], case["j"]
+    while math.gcd(j, G) > 1:  # residues n*j mod G then run through every value: a near-coincidence exists in any window of G sizes
+        j += 1
+    found = _near_vertex_sizes(G, j, case["n0"])
+    if found is None:
+        from vf.runner import Skip
+
+        raise Skip("no near-coincidence in range")
+    n, P = found
+    hi, lo = case["hi"], case["lo"]
+    sA = np.r_[np.full(P, hi), np.full(n - P, lo)]
+    yA = np.r_[np.ones(P, dtype=int), np.zeros(n - P, dtype=int)]
+    nB, PB = case["nB"], max(1, min(case["nB"] - 1, int(round(case["nB"] * j / G))))
+    sB = np.r_[np.linspace(hi, hi + 0.5, PB), np.linspace(lo - 0.5, lo, nB - PB)]
+    yB = np.r_[np.ones(PB, dtype=int), np.zeros(nB - PB, dtype=int)]
+    s, y, g = np.r_[sA, sB], np.r_[yA, yB], np.r_[np.full(n, "A"), np.full(nB, "B")]
+    order = np.argsort((np.arange(len(s)) * 7919) % len(s), kind="stable")
+    s, y, g = s[order], y[order], g[order]
+    to = ThresholdOptimizer(estimator=ScoreColumn(), constraints=case["constraint"], objective="accuracy_score",
+                            prefit=True, predict_method="predict", grid_size=G, flip=case["flip"])
+    to.fit(s.reshape(-1, 1), y, sensitive_features=g)
+    qs = np.unique(np.r_[s, lo - 1.0, hi + 1.0, (lo + hi) / 2])
+    tags = ["nt"]
+    for grp in ("A", "B"):
+        p = _valid_pmf(to._pmf_predict(qs.reshape(-1, 1), sensitive_features=np.full(len(qs), grp)), f"_pmf_predict (group {grp}, n={n}, P={P}, grid {j}/{G})")
+        if not case["flip"] and (np.diff(p) < -1e-12).any():
+            k = int(np.argmin(np.diff(p)))
+            raise PropertyViolation(f"flip=False but P(1) decreases with the score in group {grp}: score {qs[k]} -> {p[k]}, score {qs[k + 1]} -> {p[k + 1]} (n={n}, P={P}, grid value {j}/{G})")
+    b = to.interpolated_thresholder_.interpolation_dict["A"]
+    for key in ("p0", "p1"):
+        if not -1e-12 <= float(b[key]) <= 1 + 1e-12:
+            raise PropertyViolation(f"interpolation weight {key} = {float(b[key])!r} of group A is outside [0,1] (n={n}, P={P}, grid value {j}/{G})")
+    x_sel = float(np.asarray(to._pmf_predict(sA.reshape(-1, 1), sensitive_features=np.full(n, "A")))[:, 1].mean())
+    if abs(x_sel - j / G) < 1e-9:
+        tags.append("chosen_grid_value_just_below_vertex")
+    return tags
+
+
+@st.composite
+def _near_vertex_case(draw):
+    G = draw(st.sampled_from([1000, 1000, 500, 2000]))
+    return {"grid": G, "j": draw(st.integers(G // 10, 9 * G // 10)), "n0": draw(st.sampled_from([5000, 8000, 10000, 12000])),
+            "nB": draw(st.sampled_from([40, 200, 1000])), "hi": draw(st.sampled_from([0.8, 1.0, 3.0])), "lo": draw(st.sampled_from([0.2, 0.0, -2.0])),
+            "constraint": draw(st.sampled_from(["demographic_parity", "selection_rate_parity"])), "flip": draw(st.booleans())}
 
 
 # ---- ExponentiatedGradient -------------------------------------------------------------------------------------
@@ -451,6 +516,8 @@ def _history_case(draw):
 SUBS = [
     Sub("threshold_pmf_sampling", check_threshold, strategy=_to_case, quick=120, thorough=4000, shards=16, shrink_quick=False,
         floors={"nt": 0.03, "unseen_scores": 0.1}),
+    Sub("threshold_near_vertex_grid", check_near_vertex, strategy=_near_vertex_case, quick=48, thorough=800, shards=16, shrink_quick=False,
+        floors={"chosen_grid_value_just_below_vertex": 0.3}),
     Sub("eg_pmf_sampling", check_eg, strategy=_eg_case, quick=60, thorough=1500, shards=16, shrink_quick=False,
         floors={"nt": 0.05, "mixture>=2": 0.1}),
     Sub("eg_mixture", check_eg, strategy=_eg_mixture_case, quick=400, thorough=8000, shards=16, shrink_quick=False,
